@@ -160,6 +160,13 @@ def fromPyshpV (k : Kind) (s : ShpShapeR) (dt : V) (props : Dict PVal) : Except 
 /-- a `set` of strings: its iteration order is modelled as first-insertion order (as `keyUnion` of `Model/Io.lean`) -/
 def strSet (xs : List String) : List String := (dictOf (xs.map fun k => (k, ()))).map (·.1)
 
+/-- `cls.from_wkt(text, dt=dt, properties=props)`: the per-class adapter (`fromGI`, not translated), then the shape
+    constructor (pinned `BaseShape.__init__`) -/
+def fromWktV (k : Kind) (g : GI) (dt : V) (props : Dict PVal) : Except String Shape := do
+  let geom ← fromGI k g
+  let d ← dtOfArg dt
+  pure { geom := geom, dt := d, props := props }
+
 /-- `include_properties or <keys>` -/
 def inclOr (incl : Option (List String)) (other : List String) : List String :=
   if inclTruthy incl then incl.getD [] else other
